@@ -42,6 +42,66 @@ fn lit_key(v: &Bv) -> String {
 }
 
 /// Expected structural key + the call's result, given the documented builder normalisations.
+/// The same call through the `Builder` facade (`Context::build`), which must hand out the very same
+/// references as the direct builder methods. None for calls the facade is not used for here.
+fn issue_via_builder(ctx: &mut Context, call: &Call) -> Option<ExprRef> {
+    Some(match call {
+        Call::Un(op, e) => {
+            let (op, e) = (*op, *e);
+            ctx.build(|b| if op == "not" { b.not(e) } else { b.negate(e) })
+        }
+        Call::Bin(op, a, b) => {
+            let (op, x, y) = (*op, *a, *b);
+            ctx.build(|c| match op {
+                "and" => c.and(x, y),
+                "or" => c.or(x, y),
+                "xor" => c.xor(x, y),
+                "add" => c.add(x, y),
+                "sub" => c.sub(x, y),
+                "mul" => c.mul(x, y),
+                "shl" => c.shift_left(x, y),
+                "lshr" => c.shift_right(x, y),
+                "ashr" => c.arithmetic_shift_right(x, y),
+                "udiv" => c.div(x, y),
+                "sdiv" => c.signed_div(x, y),
+                "smod" => c.signed_mod(x, y),
+                "srem" => c.signed_remainder(x, y),
+                "urem" => c.remainder(x, y),
+                "eq" => c.equal(x, y),
+                "implies" => c.implies(x, y),
+                "ugt" => c.greater(x, y),
+                "uge" => c.greater_or_equal(x, y),
+                "sgt" => c.greater_signed(x, y),
+                "sge" => c.greater_or_equal_signed(x, y),
+                "concat" => c.concat(x, y),
+                "read" => c.array_read(x, y),
+                _ => unreachable!(),
+            })
+        }
+        Call::Slice(e, hi, lo) => {
+            let (e, hi, lo) = (*e, *hi, *lo);
+            ctx.build(|c| c.slice(e, hi, lo))
+        }
+        Call::Ext(signed, e, by) => {
+            let (signed, e, by) = (*signed, *e, *by);
+            ctx.build(|mut c| if by % 2 == 0 { c.extend(e, by, signed) } else if signed { c.sign_extend(e, by) } else { c.zero_extend(e, by) })
+        }
+        Call::Ite(c0, a, b) => {
+            let (c0, a, b) = (*c0, *a, *b);
+            ctx.build(|c| c.ite(c0, a, b))
+        }
+        Call::Store(a, i, d) => {
+            let (a, i, d) = (*a, *i, *d);
+            ctx.build(|c| c.array_store(a, i, d))
+        }
+        Call::ArrConst(e, iw) => {
+            let (e, iw) = (*e, *iw);
+            ctx.build(|c| c.array_const(e, iw))
+        }
+        _ => return None,
+    })
+}
+
 fn issue(ctx: &mut Context, call: &Call) -> Result<(ExprRef, Option<String>), PanicInfo> {
     // Returns (ref, key); key None means "normalised to an operand" (ref must equal that operand)
     guard(|| match call {
@@ -479,7 +539,7 @@ impl Prop for C12 {
         Some("tape")
     }
     fn rule(&self) -> String {
-        "stateful, model-based: tape-decoded histories of up to 300 Context construction calls (symbols with reused names, literals built by seven routes incl. baa add/not/shift arithmetic, every operator builder, slices/extensions with their documented normalisations, array constants/stores/reads, ite, Value::Array literals) interleaved with bulk insertions of 1k-60k fresh nodes and re-issues of earlier calls; shadow map structural-key -> ExprRef and back: known key => identical ref, new key => ref never seen before; periodic audit: every ref ever obtained reads back with the recorded structure, type and name; get_true/get_false fixed and equal to every 1-bit literal 1/0; is_true/is_false agree with the value. Non-trivial: history with a rebuild of an existing key after >= 1000 other insertions and >= 1 wide (>64 bit) literal produced by two different routes; distinct by hash of the tape.".into()
+        "stateful, model-based (one call in five is also issued through the Context::build facade, which must return the same reference): tape-decoded histories of up to 300 Context construction calls (symbols with reused names, literals built by seven routes incl. baa add/not/shift arithmetic, every operator builder, slices/extensions with their documented normalisations, array constants/stores/reads, ite, Value::Array literals) interleaved with bulk insertions of 1k-60k fresh nodes and re-issues of earlier calls; shadow map structural-key -> ExprRef and back: known key => identical ref, new key => ref never seen before; periodic audit: every ref ever obtained reads back with the recorded structure, type and name; get_true/get_false fixed and equal to every 1-bit literal 1/0; is_true/is_false agree with the value. Non-trivial: history with a rebuild of an existing key after >= 1000 other insertions and >= 1 wide (>64 bit) literal produced by two different routes; distinct by hash of the tape.".into()
     }
     fn budget(&self, tier: Tier) -> Budget {
         match tier {
@@ -582,6 +642,20 @@ impl Prop for C12 {
                 _ => false,
             };
             let before = m.by_key.len();
+            // one call in five is also made through the Builder facade: same reference expected
+            if t.chance(50) {
+                let direct = issue(&mut ctx, &call);
+                let facade = guard(|| issue_via_builder(&mut ctx, &call));
+                if let (Ok((d, _)), Ok(Some(f))) = (&direct, &facade) {
+                    rec.label("route:builder-facade");
+                    if d != f {
+                        return Err(Failure::new(
+                            "context/builder-facade-differs",
+                            format!("{:?}: direct call gives {:?}, Context::build gives {:?}", call, d, f),
+                        ));
+                    }
+                }
+            }
             let (r, key) = match issue(&mut ctx, &call) {
                 Ok(x) => x,
                 Err(p) => {
